@@ -690,6 +690,31 @@ func (p *pexp) hasNegZero() bool {
 	return false
 }
 
+// the columns the predicate compares with a -0.0 FLOAT constant
+func (p *pexp) negZeroCols(acc map[int]bool) {
+	if p == nil {
+		return
+	}
+	isNZ := func(v c15Val) bool { return !v.null && v.ty == sql.Float64Type && v.f == 1<<63 }
+	switch p.K {
+	case "cmp":
+		if isNZ(p.V) {
+			acc[p.Col] = true
+		}
+	case "in":
+		for _, v := range p.Vs {
+			if isNZ(v) {
+				acc[p.Col] = true
+			}
+		}
+	case "not":
+		p.L.negZeroCols(acc)
+	case "and", "or":
+		p.L.negZeroCols(acc)
+		p.R.negZeroCols(acc)
+	}
+}
+
 func (p *pexp) hasBoolCol() bool {
 	switch p.K {
 	case "boolcol":
@@ -1316,6 +1341,7 @@ type refOut struct {
 	HasLast  bool
 	FirstPK  int64
 	OrderDep bool // outcome may depend on the scan order (not compared)
+	FailRow  int  // INSERT family: index of the VALUES row at which the reference failed (valid when Err != "")
 }
 
 // value as stored in the column (INTEGER literal into FLOAT column is widened)
@@ -1384,7 +1410,8 @@ func (t *refTable) exec(d *dml) refOut {
 	fail := func(cls string) refOut { return refOut{Err: cls} }
 	switch d.K {
 	case "insert", "upsert", "insert-ocn":
-		for _, vals := range d.Rows {
+		for ri, vals := range d.Rows {
+			fail := func(cls string) refOut { return refOut{Err: cls, FailRow: ri} }
 			row := make([]c15Val, len(sc.Cols))
 			spec := map[int]bool{}
 			for c := range sc.Cols {
@@ -1427,12 +1454,11 @@ func (t *refTable) exec(d *dml) refOut {
 			if !work.checkOK(row) {
 				return fail("check")
 			}
+			// encodedKey: the key columns in order, the first problem decides
 			for _, c := range sc.PK {
 				if row[c].null {
 					return fail("pk-null")
 				}
-			}
-			for _, c := range sc.PK {
 				if !refFits(sc.Cols[c], row[c]) {
 					return fail("max-len")
 				}
